@@ -144,6 +144,16 @@ def eq(a: V, b: V):
             return other.t == ValSort.NoneV
         return z3.BoolVal(False)
     if isinstance(a, VAny) or isinstance(b, VAny):
+        for x, y in ((a, b), (b, a)):
+            # Python: True == 1 and False == 0 -- a dynamic value compared with a typed number compares numerically
+            if isinstance(x, VAny) and isinstance(y, VInt):
+                t = x.t
+                return z3.Or(t == ValSort.I(y.t),
+                             z3.And(ValSort.is_B(t), z3.If(ValSort.bv(t), z3.IntVal(1), z3.IntVal(0)) == y.t))
+            if isinstance(x, VAny) and isinstance(y, VBool):
+                t = x.t
+                return z3.Or(t == ValSort.B(y.t),
+                             z3.And(ValSort.is_I(t), ValSort.iv(t) == z3.If(y.t, z3.IntVal(1), z3.IntVal(0))))
         return to_val(a) == to_val(b)
     if isinstance(a, VBool) and isinstance(b, VInt):
         a = VInt(z3.If(a.t, z3.IntVal(1), z3.IntVal(0)))
